@@ -367,6 +367,9 @@ func runCloseRaceScenario(c shutCase) (res shutResult) {
 		defer restore()
 		rounds = 30 + c.After/4
 	}
+	if len(c.Workers) >= 3 && c.Workers[0] == "view" && c.Workers[1] == "view" && c.Workers[2] == "kv" {
+		rounds = 150 + c.After // (the view mix: lock orders between design-document calls, index updates and Close)
+	}
 	var total atomic.Int64
 	for round := 0; round < rounds; round++ {
 		hx, oerr := rosmar.OpenBucket(w.URL, w.Name, rosmar.ReOpenExisting)
